@@ -54,6 +54,7 @@ type proc struct {
 	declared map[string]bool
 	lines    chan string
 	dead     bool
+	stack    []string // keys of the path-condition conjuncts currently asserted (one push level each)
 }
 
 func startProc(be backend) (*proc, error) {
@@ -84,6 +85,7 @@ func startProc(be backend) (*proc, error) {
 		}
 	}()
 	p.send("(set-option :produce-models true)")
+	p.send("(set-option :global-declarations true)")
 	p.send("(set-logic ALL)")
 	return p, nil
 }
@@ -196,11 +198,17 @@ func (s *Solver) proc(i int) *proc {
 	return s.procs[i]
 }
 
-// buildQuery renders declarations (new ones only) and the assertion block.
-func (s *Solver) buildQuery(p *proc, asserts []*Term, getVals []*Term) string {
+// buildQuery renders new declarations, synchronises the solver's assertion
+// stack with the path condition pc (one push level per conjunct, shared
+// prefixes are kept) and opens a query-level scope with the extra assertions.
+func (s *Solver) buildQuery(p *proc, pc []*Term, extra []*Term, getVals []*Term) string {
 	vars := map[string]Sort{}
 	apps := map[string]bool{}
-	for _, a := range asserts {
+	for _, a := range pc {
+		a.Vars(vars)
+		a.Apps(apps)
+	}
+	for _, a := range extra {
 		a.Vars(vars)
 		a.Apps(apps)
 	}
@@ -218,12 +226,8 @@ func (s *Solver) buildQuery(p *proc, asserts []*Term, getVals []*Term) string {
 		if !p.declared["fn:"+f] {
 			p.declared["fn:"+f] = true
 			switch {
-			case strings.HasPrefix(f, "Q"):
-				fmt.Fprintf(&b, "(declare-fun %s (String) String)\n", f)
 			case strings.HasPrefix(f, "FI"): // String -> Int
 				fmt.Fprintf(&b, "(declare-fun %s (String) Int)\n", f)
-			case strings.HasPrefix(f, "FS"):
-				fmt.Fprintf(&b, "(declare-fun %s (String) String)\n", f)
 			case strings.HasPrefix(f, "IS"):
 				fmt.Fprintf(&b, "(declare-fun %s (Int) String)\n", f)
 			default:
@@ -231,11 +235,24 @@ func (s *Solver) buildQuery(p *proc, asserts []*Term, getVals []*Term) string {
 			}
 		}
 	}
+	common := 0
+	for common < len(p.stack) && common < len(pc) && p.stack[common] == pc[common].Key() {
+		common++
+	}
+	if len(p.stack) > common {
+		fmt.Fprintf(&b, "(pop %d)\n", len(p.stack)-common)
+		p.stack = p.stack[:common]
+	}
+	for k := common; k < len(pc); k++ {
+		fmt.Fprintf(&b, "(push 1)\n(assert %s)\n", pc[k].SMT())
+		p.stack = append(p.stack, pc[k].Key())
+	}
 	b.WriteString("(push 1)\n")
-	for _, a := range asserts {
+	for _, a := range extra {
 		fmt.Fprintf(&b, "(assert %s)\n", a.SMT())
 	}
-	for _, ax := range qAxioms(asserts) {
+	all := append(append([]*Term(nil), pc...), extra...)
+	for _, ax := range qAxioms(all) {
 		fmt.Fprintf(&b, "(assert %s)\n", ax.SMT())
 	}
 	return b.String()
@@ -325,16 +342,27 @@ func sortStrings(a []string) {
 
 // Check decides satisfiability of the conjunction.
 func (s *Solver) Check(asserts []*Term) Result {
-	r, _ := s.check(asserts, nil, true)
+	r, _ := s.check(nil, asserts, nil, true)
 	return r
 }
 
 // CheckModel decides satisfiability and, if sat, returns values for vals.
 func (s *Solver) CheckModel(asserts []*Term, vals []*Term) (Result, map[string]ModelVal) {
-	return s.check(asserts, vals, false)
+	return s.check(nil, asserts, vals, false)
 }
 
-func (s *Solver) check(asserts []*Term, vals []*Term, useCache bool) (Result, map[string]ModelVal) {
+// CheckPC decides pc ∧ extra, keeping pc on the solvers' assertion stacks.
+func (s *Solver) CheckPC(pc []*Term, extra []*Term) Result {
+	r, _ := s.check(pc, extra, nil, true)
+	return r
+}
+
+// CheckPCModel is CheckPC with a model.
+func (s *Solver) CheckPCModel(pc []*Term, extra []*Term, vals []*Term) (Result, map[string]ModelVal) {
+	return s.check(pc, extra, vals, false)
+}
+
+func (s *Solver) check(pc []*Term, asserts []*Term, vals []*Term, useCache bool) (Result, map[string]ModelVal) {
 	// trivial cases
 	var live []*Term
 	for _, a := range asserts {
@@ -346,12 +374,12 @@ func (s *Solver) check(asserts []*Term, vals []*Term, useCache bool) (Result, ma
 		}
 		live = append(live, a)
 	}
-	if len(live) == 0 && len(vals) == 0 {
+	if len(live) == 0 && len(vals) == 0 && len(pc) == 0 {
 		return Sat, map[string]ModelVal{}
 	}
 	var key string
 	if useCache {
-		key = cacheKey(live)
+		key = cacheKey(append(append([]*Term(nil), pc...), live...))
 		if r, ok := s.cache[key]; ok {
 			s.Stats.CacheHit++
 			return r, nil
@@ -370,7 +398,7 @@ func (s *Solver) check(asserts []*Term, vals []*Term, useCache bool) (Result, ma
 	launch := func(i int) {
 		launched[i] = true
 		go func() {
-			r, m := s.runOn(i, live, vals)
+			r, m := s.runOn(i, pc, live, vals)
 			ch <- ans{i, r, m}
 		}()
 	}
@@ -451,7 +479,7 @@ loop:
 	return res, model
 }
 
-func (s *Solver) runOn(i int, asserts []*Term, vals []*Term) (Result, map[string]ModelVal) {
+func (s *Solver) runOn(i int, pc []*Term, asserts []*Term, vals []*Term) (Result, map[string]ModelVal) {
 	p := s.proc(i)
 	if p == nil {
 		return Unknown, nil
@@ -462,7 +490,7 @@ func (s *Solver) runOn(i int, asserts []*Term, vals []*Term) (Result, map[string
 		s.Stats.TimeS[p.be.name] += time.Since(t0).Seconds()
 		s.mu.Unlock()
 	}()
-	q := s.buildQuery(p, asserts, vals)
+	q := s.buildQuery(p, pc, asserts, vals)
 	if p.be.timeoutOpt != "" {
 		q = fmt.Sprintf(p.be.timeoutOpt, s.TimeoutMs) + "\n" + q
 	}
@@ -485,7 +513,7 @@ func (s *Solver) runOn(i int, asserts []*Term, vals []*Term) (Result, map[string
 			return Unknown, nil
 		}
 		if s.Log != nil {
-			fmt.Fprintf(s.Log, ";; <- %s\n", l)
+			fmt.Fprintf(s.Log, ";; <- %s  [%.0fms]\n", l, time.Since(t0).Seconds()*1000)
 		}
 		l = strings.TrimSpace(l)
 		if strings.HasPrefix(l, "(error") {
